@@ -58,6 +58,7 @@ func init() {
 		return nil
 	})
 	p.Run = func(c *Ctx) {
+		runScale(c, sub, "C03")
 		cfg := gen.Cfg{ExprDepth: 1, BodyLen: 4, Nest: 4, HostileText: true, Comments: true, Verbatim: true, If: true, For: true,
 			SetCap: true, FilterSec: true, Calls: true, Macros: true, Blocks: true, BigText: true}
 		sub.Rapid(c, c.Share(c.Pick(20000, 1000000)), func(t *rapidT) *progCase {
